@@ -8,6 +8,7 @@ package vnet
 
 import (
 	"context"
+	"errors"
 	"net"
 	"os"
 	"syscall"
@@ -49,6 +50,33 @@ func (w doneW) Ready() bool {
 	}
 }
 
+// the error values package net itself returns for a connect that ran out of time / whose context was cancelled (they
+// answer errors.Is(err, context.DeadlineExceeded) resp. context.Canceled, which callers do test): obtained once from the
+// real dialer with a context that is already over
+var errDialTimeout, errDialCanceled = func() (error, error) {
+	inner := func(ctx context.Context) error {
+		_, err := (&net.Dialer{}).DialContext(ctx, "tcp", "127.0.0.1:9")
+		var oe *net.OpError
+		if errors.As(err, &oe) && oe.Err != nil {
+			return oe.Err
+		}
+		return err
+	}
+	dctx, c1 := context.WithDeadline(context.Background(), time.Unix(1, 0))
+	defer c1()
+	cctx, c2 := context.WithCancel(context.Background())
+	c2()
+	return inner(dctx), inner(cctx)
+}()
+
+func dialErr(network string, ctxErr error) error {
+	e := errDialTimeout
+	if ctxErr == context.Canceled {
+		e = errDialCanceled
+	}
+	return &net.OpError{Op: "dial", Net: network, Err: e}
+}
+
 func (d *Dialer) Dial(network, address string) (net.Conn, error) {
 	return d.DialContext(context.Background(), network, address)
 }
@@ -88,10 +116,17 @@ func (d *Dialer) DialContext(ctx context.Context, network, address string) (net.
 		if vsched.Aborting() {
 			return nil, os.ErrDeadlineExceeded
 		}
-		if err := ctx.Err(); err != nil && !(end >= 0 && vsched.Now() >= end && err == context.DeadlineExceeded) {
-			return nil, &net.OpError{Op: "dial", Net: network, Err: err}
+		if err := ctx.Err(); err == context.Canceled {
+			return nil, dialErr(network, err)
 		}
-		return nil, &net.OpError{Op: "dial", Net: network, Err: os.ErrDeadlineExceeded}
+		return nil, dialErr(network, context.DeadlineExceeded)
+	}
+	// like the real dialer: a context that is already over ends the connect before it starts
+	if err := ctx.Err(); err != nil {
+		return nil, dialErr(network, err)
+	}
+	if !d.Deadline.IsZero() && !vtime.Now().Before(d.Deadline) {
+		return nil, dialErr(network, context.DeadlineExceeded)
 	}
 	// the real connect, in real time, independent of the virtual deadlines (generous real-time patience: a loaded machine
 	// must not turn it into a failure); a closed port refuses at once
